@@ -33,6 +33,7 @@ func primaryKeyOf(lek val.Item) val.Item {
 }
 
 type walkResult struct {
+	count   int64 // the Counts of the pages added up
 	items   []val.Item
 	pages   int
 	problem string
@@ -59,10 +60,16 @@ func walk(cl adapt.Client, op adapt.Op, limit, maxPages, stopAfter int, start va
 			w.problem = fmt.Sprintf("page %d has %d items with Limit %d", w.pages, len(got.Items), limit)
 			return w
 		}
-		if got.Count != int64(len(got.Items)) {
+		if got.Count != int64(len(got.Items)) && !(op.Select == "COUNT" && len(got.Items) == 0) {
+			// (a request that only asks for the count may come back without items)
 			w.problem = fmt.Sprintf("page %d Count=%d but %d items", w.pages, got.Count, len(got.Items))
 			return w
 		}
+		if got.Count > int64(limit) {
+			w.problem = fmt.Sprintf("page %d Count=%d with Limit %d", w.pages, got.Count, limit)
+			return w
+		}
+		w.count += got.Count
 		w.items = append(w.items, got.Items...)
 		w.leks = append(w.leks, got.LastKey)
 		if got.LastKeyEmpty {
@@ -154,8 +161,17 @@ func (p *c04) RunCase(ctx *runner.Ctx) runner.CaseResult {
 	// of an attribute no item has. Whatever a projection does to the ITEMS of a page (this library validates it and
 	// returns whole items), it does nothing to the walk: the pages together are the unpaginated result of the same
 	// request, and every LastEvaluatedKey is a key to continue from
+	// ... and some only ask HOW MANY items there are (Select = COUNT): the Counts of the pages add up to the Count of
+	// the unpaginated request, whether or not the pages still carry the items
 	for i := range reqs {
-		if r.Intn(3) == 0 {
+		if r.Intn(5) == 0 {
+			reqs[i].op.Select = "COUNT"
+			reqs[i].kind += "|count"
+			x.r.Counters["requests_select_count"]++
+		}
+	}
+	for i := range reqs {
+		if reqs[i].op.Select == "" && r.Intn(3) == 0 {
 			reqs[i].op.Proj = mon.Pick(r, []string{"v", "g, v", "h", "r, s", "w", "s", "v, w, g"})
 			reqs[i].kind += "|proj"
 			x.r.Counters["requests_with_projection"]++
@@ -205,6 +221,16 @@ func (p *c04) RunCase(ctx *runner.Ctx) runner.CaseResult {
 			if w.problem != "" {
 				x.viol("page-protocol", rq.op.Kind+featIdx(rq.op), fmt.Sprintf("[%s] %s Limit=%d: %s", adapter, rq.kind, L, w.problem), witness(rq.op, map[string]interface{}{"limit": L}))
 				return x.r
+			}
+			if rq.op.Select == "COUNT" {
+				if w.count != base.Count {
+					x.viol("items-lost", rq.op.Kind+featIdx(rq.op)+"+count", fmt.Sprintf("[%s] %s Limit=%d: the Counts of %d pages add up to %d; the unpaginated request counts %d", adapter, rq.kind, L, w.pages, w.count, base.Count),
+						witness(rq.op, map[string]interface{}{"limit": L, "lastkeys": w.leks}))
+					return x.r
+				}
+				x.r.Counters["walks"]++
+				x.r.Counters["pages"] += w.pages
+				continue
 			}
 			if adapt.ItemsCanon(w.items) != adapt.ItemsCanon(U) {
 				rule := "concat-differs"
